@@ -261,7 +261,10 @@ def find_item(src, path):
     item = None
     for seg in path:
         seg = seg.strip()
-        kind, _, rest = seg.partition(" ")
+        mk = re.match(r"(impl|fn|struct|enum|const|static|trait|type|mod)\b(.*)$", seg, re.S)
+        if not mk:
+            raise LostAnchor("bad path segment %r" % seg)
+        kind, rest = mk.group(1), mk.group(2)
         found = None
         for it in items_in(src, toks, lo, hi):
             if it.kind != kind:
